@@ -133,6 +133,7 @@ def crash_site(text):
     if m: return 'UBSan:%s:%s' % (os.path.basename(m.group(1)), m.group(2)[:60])
     if 'MFDRIVE-TERMINATE' in text: return 'uncaught-exception'
     if 'TIMEOUT' in text: return 'timeout'
+    if 'Alarm clock' in text: return 'watchdog-hang'
     return 'unknown'
 
 def default_sig(f, beh):
